@@ -294,6 +294,17 @@ pub fn run_c10(ctx: &mut Ctx, from: u64, to: u64) {
         let class = *rng.pick(&[CorpusClass::Normal, CorpusClass::Normal, CorpusClass::PartialAnnotation, CorpusClass::AllUnknown, CorpusClass::SingleChar, CorpusClass::OnlyWordBoundaries]);
         let tags = rng.chance(1, 3);
         let mut tc = gen_train_case(&mut rng, 0, 4, class, tags);
+        if k % 30 == 11 {
+            // a sentence that is exactly the shortest dictionary word (no shorter word in the dictionary)
+            let alpha: Vec<char> = tc.corpus.iter().flat_map(|s| s.chars.iter().copied()).chain("ab".chars()).collect();
+            let n = rng.urange(2, 4);
+            let chars = text::text_from(&mut rng, &alpha, n);
+            let w: String = chars.iter().collect();
+            tc.corpus.push(RefSentence { chars, labels: (0..n - 1).map(|_| rng.below(2) as u8).collect(), tags: vec![vec![]; n] });
+            tc.cfg.dict.retain(|d| d.len() > w.len());
+            tc.cfg.dict.push(w);
+            ctx.count("sentences_equal_to_the_shortest_dictionary_word", 1);
+        }
         if k % 40 == 7 {
             // a window wider than 128 around boundaries that have more than 128 characters on both sides
             let alpha: Vec<char> = tc.corpus.iter().flat_map(|s| s.chars.iter().copied()).chain("ab".chars()).collect();
@@ -476,6 +487,20 @@ pub fn run_c09(ctx: &mut Ctx, from: u64, to: u64) {
                 tc.cfg.type_w = rng.urange(5, 12) as u8;
             }
         }
+        if k % 250 == 21 {
+            // one evaluation sentence with character positions beyond 65535, training patterns near its end
+            let alpha: Vec<char> = tc.corpus.iter().flat_map(|s| s.chars.iter().copied()).chain("ab".chars()).collect();
+            let n = rng.urange(66_000, 70_000);
+            let mut long = text::text_from(&mut rng, &alpha, n);
+            if let Some(first) = tc.corpus.iter().find(|s| s.chars.len() >= 2) {
+                let l = first.chars.len().min(20);
+                long[n - l..].copy_from_slice(&first.chars[..l]);
+            }
+            tc.eval.push(long);
+            tc.cfg.char_w = tc.cfg.char_w.min(3);
+            tc.cfg.type_w = tc.cfg.type_w.min(3);
+            ctx.count("evaluation_sentences_longer_than_65535", 1);
+        }
         ctx.flag("configs_with_window_of_8_or_more", tc.cfg.char_w >= 8 || tc.cfg.type_w >= 8);
         ctx.flag("configs_with_char_window_gt_type_window", tc.cfg.char_w > tc.cfg.type_w);
         ctx.flag("configs_with_type_window_gt_char_window", tc.cfg.type_w > tc.cfg.char_w);
@@ -537,13 +562,18 @@ pub fn run_c09(ctx: &mut Ctx, from: u64, to: u64) {
         let pr = guard(|| {
             let p = Predictor::new(tr.model, false).map_err(|e| format!("{e}"))?;
             let mut out = vec![];
-            for t in &tc.eval {
+            for (i, t) in tc.eval.iter().enumerate() {
                 let mut s = Sentence::from_raw(to_string(t)).map_err(|e| format!("{e}"))?;
                 p.predict(&mut s);
+                if (i + t.len()) % 3 == 0 {
+                    // the same object analysed again: the scores are the learned function, not a running sum
+                    p.predict(&mut s);
+                }
                 out.push(s.boundary_scores().to_vec());
             }
             Ok::<_, String>(out)
         });
+        ctx.count("evaluation_sentences_predicted_twice", tc.eval.iter().enumerate().filter(|(i, t)| (i + t.len()) % 3 == 0).count() as u64);
         let scores = match pr {
             Ok(Ok(s)) => s,
             Ok(Err(e)) => {
@@ -691,6 +721,12 @@ pub fn run_c11(ctx: &mut Ctx, from: u64, to: u64) {
             }
             tc.cfg.char_n = tc.cfg.char_n.min(2);
             tc.cfg.type_n = tc.cfg.type_n.min(2);
+        }
+        if k % 60 == 17 {
+            // a blank dictionary word next to real ones (an error is a legal answer, a panic is not)
+            let at = rng.below(tc.cfg.dict.len() + 1);
+            tc.cfg.dict.insert(at, String::new());
+            ctx.count("dictionaries_with_blank_word", 1);
         }
         ctx.flag("configs_with_char_window_of_128_or_more", tc.cfg.char_w >= 128);
         ctx.flag("configs_with_type_window_of_128_or_more", tc.cfg.type_w >= 128);
